@@ -256,7 +256,9 @@ func voxColliders() []voxCollider {
 // and numbered from their own counter, so that the records of voxColliders() stay what they were.
 func voxColliders2() []voxCollider {
 	return []voxCollider{
-		// "To group the colliders, see GroupBounders()": the triangles as plain colliders
+		// "To group the colliders, see GroupBounders()": the triangles as plain colliders; every other time in
+		// random order (grouping is documented as a matter of efficiency: "otherwise, the resulting Collider may not
+		// be efficient")
 		{"GroupedColliders", func(m *model3d.Mesh, rng *rand.Rand) model3d.Collider {
 			tris := m.TriangleSlice()
 			rng.Shuffle(len(tris), func(i, j int) { tris[i], tris[j] = tris[j], tris[i] })
@@ -264,7 +266,9 @@ func voxColliders2() []voxCollider {
 			for i, t := range tris {
 				cs[i] = t
 			}
-			model3d.GroupBounders(cs)
+			if rng.Intn(2) == 0 {
+				model3d.GroupBounders(cs)
+			}
 			return model3d.GroupedCollidersToCollider(cs)
 		}, false, nil, false},
 		{"MeshToInterpNormalCollider", func(m *model3d.Mesh, _ *rand.Rand) model3d.Collider {
@@ -403,12 +407,20 @@ func voxSDFs(rng *rand.Rand) []voxSDF {
 
 var meshToSDF = voxSDF{"MeshToSDF", func(m *model3d.Mesh) model3d.SDF { return model3d.MeshToSDF(m) }, nil}
 
-// groupedTrianglesToSDF: the constructor behind MeshToSDF, called directly (GroupTriangles first, as documented)
-var groupedTrianglesToSDF = voxSDF{"GroupedTrianglesToSDF", func(m *model3d.Mesh) model3d.SDF {
-	tris := m.TriangleSlice()
-	model3d.GroupTriangles(tris)
-	return model3d.GroupedTrianglesToSDF(tris)
-}, nil}
+// groupedTrianglesToSDF: the constructor behind MeshToSDF, called directly - on triangles grouped by GroupTriangles
+// and, every other time, on triangles in random order ("if the triangles are not grouped by GroupTriangles(), the
+// resulting PointSDF is inefficient": grouping is a matter of speed, the answers must be the same)
+func groupedTrianglesToSDF(rng *rand.Rand) voxSDF {
+	grouped := rng.Intn(2) == 0
+	return voxSDF{"GroupedTrianglesToSDF", func(m *model3d.Mesh) model3d.SDF {
+		tris := m.TriangleSlice()
+		rng.Shuffle(len(tris), func(i, j int) { tris[i], tris[j] = tris[j], tris[i] })
+		if grouped {
+			model3d.GroupTriangles(tris)
+		}
+		return model3d.GroupedTrianglesToSDF(tris)
+	}, nil}
+}
 
 func runVoxelSDF(id int, vox [][3]int, vs voxSDF, rng *rand.Rand, n int, ext [3]int) voxelRecord {
 	rec := voxelRecord{Id: id, Site: vs.name, Variant: "voxel-world", Voxels: vox, Rays: []rayObs{}, Spheres: []sphObs{},
@@ -730,7 +742,7 @@ func init() {
 			}
 			if strings.Contains(kinds, "sdf") {
 				id3++
-				put(runVoxelSDF(id3, vox, groupedTrianglesToSDF, rng3, a.int("sdf", 40), ext))
+				put(runVoxelSDF(id3, vox, groupedTrianglesToSDF(rng3), rng3, a.int("sdf", 40), ext))
 			}
 		}
 		emitExt := func(w *extWorld, ext [3]int) {
